@@ -67,7 +67,18 @@ SweepShapeWhy(e) ==
   ELSE IF Mul(e.min, e.n) # Thr(e) THEN "shape:fibre-size-not-T-div-n"
   ELSE "ok"
 
+\* ---- a read of the source that no bounded draw announced (a generator using a raw word directly) ----
+\* With everything else fixed and no re-read, the outcome is a function of that one word: the 2^32 equally likely words are
+\* split into `outcomes' classes.  All alternatives equally likely would need equal classes, impossible unless their number
+\* divides 2^32.  (Each outcome was seen many times - outcomes * 64 <= probes - so no class was missed by the probes.)
+OpaqueWhys(e) ==
+  IF e.unann = 0 THEN <<"ok">>
+  ELSE <<IF e.rereads = 0 /\ e.outcomes >= 2 /\ e.outcomes * 64 <= e.probed /\ ~IsPow2Int(e.outcomes)
+           THEN "prop:a-choice-among-a-non-power-of-two-number-of-alternatives-is-made-from-a-raw-word-without-rejection" ELSE "ok",
+         "shape:random-source-read-without-an-announced-bounded-draw">>
+
 Whys(e) ==
+  IF e.op = "opaque" THEN OpaqueWhys(e) ELSE
   IF e.op = "draw" THEN <<DrawPropWhy(e), DrawContWhy(e), DrawShapeWhy(e)>>
   ELSE IF e.op = "draw0" THEN
      <<IF e.kind = "panic" /\ e.used = 0 THEN "ok" ELSE "shape:zero-bound-did-not-panic-before-reading">>
